@@ -1,5 +1,6 @@
 import DriverLib.Util
 import PytmeModel.Model.C10
+import PytmeModel.Model.C10K
 open Lean Drv Pm Pm.C10
 namespace Drv.C10
 
@@ -62,8 +63,86 @@ def wAtomOf (nd : Nat) (j : Json) : Except String (List Rat × Int) := do
   if xyz.length ≠ nd then throw "BadArg:rank"
   pure (xyz, ← getInt j "w")
 
+def wkOf (s : String) (pad : Nat) : WKind :=
+  match s with
+  | "atomic_weight" => .point .atomicWeight
+  | "atomic_number" => .point .atomicNumber
+  | "van_der_waals_radius" => .vdw
+  | "scattering_factors" => .scattering
+  | "lowpass_scattering_factors" => .scattering
+  | "gaussian" => .gaussian pad
+  | _ => .unknown
+
+def getOptStrList (j : Json) (k : String) : Except String (Option (List String)) :=
+  match optField j k with
+  | none => pure none
+  | some v => do pure (some (← (← v.getArr?).toList.mapM (·.getStr?)))
+
+def recOf (nd : Nat) (j : Json) : Except String Rec := do
+  pure ⟨← atomOf nd j, ← getStr j "res", ← getStr j "rec"⟩
+
+def outK (o : OutK) (extra : List (String × Json)) : Json :=
+  Json.mkObj ([("shape", jInts o.shape), ("origin", jRats o.origin), ("rate", jRats o.rate),
+    ("outside", jNat o.outside), ("positions", jIntss o.positions), ("grid", sparse o.grid)] ++ extra)
+
+def kArgs (a : Json) : Except String (Nat × Option (List Int) × Option (List Rat) × Option (List Rat) × Option String × WKind) := do
+  let nd ← getNat a "nd"
+  let shape ← getOptIntList a "shape"
+  let rate ← getOptRatList a "rate"
+  let origin ← getOptRatList a "origin"
+  let chain ← getOptStr a "chain"
+  let pad := match getNat a "pad" with | .ok p => p | .error _ => 0
+  let wk := wkOf (← getStr a "wt") pad
+  if let some s := shape then if s.length ≠ nd then throw "BadArg:rank"
+  if let some o := origin then if o.length ≠ nd then throw "BadArg:rank"
+  if let some r := rate then if r.any (fun x => x ≤ 0) then throw "BadArg:rate"
+  pure (nd, shape, rate, origin, chain, wk)
+
 def handle (op : String) (a : Json) : Option R :=
   match op with
+  | "c10.vdwrTable" => some do
+      pure (jList (vdwrTable.map (fun e => jList [jStr e.1, match e.2 with | some v => jNat v | none => Json.null])))
+  | "c10.toVolumeK" => some do
+      let (nd, shape, rate, origin, chain, wk) ← kArgs a
+      let atoms ← (← getArr a "atoms").toList.mapM (atomOf nd)
+      match toVolumeK nd atoms shape rate origin chain wk with
+      | .error e => throw e
+      | .ok o => pure (outK o [])
+  | "c10.fromFileK" => some do
+      let (nd, shape, rate, origin, chain, wk) ← kArgs a
+      let recs ← (← getArr a "recs").toList.mapM (recOf nd)
+      let elems ← getOptStrList a "elems"
+      let residues ← getOptStrList a "residues"
+      let kept := (recs.filter (fileKeep elems residues false)).length
+      match fromFileK nd recs elems residues shape rate origin chain wk with
+      | .error e => throw e
+      | .ok o => pure (outK o [("selected", jNat kept)])
+  | "c10.specVdw" => some do
+      let nd ← getNat a "nd"
+      let origin ← getRatList a "origin"
+      let rate ← getRatList a "rate"
+      let shape ← getIntList a "shape"
+      if origin.length ≠ nd ∨ rate.length ≠ nd ∨ shape.length ≠ nd then throw "BadArg:rank"
+      if rate.any (fun x => x ≤ 0) then throw "BadArg:rate"
+      let atoms ← (← getArr a "atoms").toList.mapM (fun j => do
+        let xyz ← getRatList j "xyz"
+        if xyz.length ≠ nd then throw "BadArg:rank"
+        pure (xyz, ← getNat j "vdwr"))
+      let g := Arr.ofFn (toNats shape) (fun v => specVdw origin rate shape atoms (v.map Int.ofNat))
+      pure (Json.mkObj [("grid", sparse g),
+        ("radii", jIntss (atoms.map (fun x => vdwRadius x.2 rate))),
+        ("idx", jIntss (atoms.map (fun x => idxOf origin rate x.1.reverse)))])
+  | "c10.sphere" => some do
+      let k ← getIntList a "k"
+      let ds ← getIntListList a "ds"
+      pure (jList (ds.map (fun d => jBool (inSphere k d))))
+  | "c10.scatRanges" => some do
+      let p ← getIntList a "p"
+      let R ← getRatList a "R"
+      let shape ← getIntList a "shape"
+      let rs := zip3 scatRange p R shape
+      pure (Json.mkObj [("ranges", jIntss (rs.map (fun r => [r.1, r.2]))),
+        ("kind", jStr (match scatSupport p R shape with | .box _ => "box" | .point => "point" | .indexError => "IndexError"))])
   | "c10.table" => some do
       pure (jList (elementTable.map (fun e => jList [jStr e.1, jNat e.2.1, jNat e.2.2])))
   | "c10.weights" => some do
